@@ -7,6 +7,7 @@ CONSTANTS
   Dev_h35 = FALSE
   Emit = FALSE
   KnownClasses = {}
+  Rich = FALSE
   BaseVal <- BaseEdge
 INVARIANTS Refines SegmentationOK MapsOK DomainOK BuildForm
 CHECK_DEADLOCK FALSE
